@@ -35,6 +35,16 @@ var commonAssumptions = []string{
 // All lists the claimed properties.
 var All = []*Prop{
 	{
+		ID:    "C06",
+		Rules: []*core.Rule{rules.StrBirth, rules.LazyScan},
+		Explanation: "Normal form: asciiString holds only bytes < 0x80; unicodeString holds at least one unit >= 0x80; an imported Go string decides lazily. ===, hashing and CompareTo assume it. " +
+			"R-STRBIRTH enumerates every birth of the two representation types in the module (constants, conversions, and slices/makes of unicodeString that flow on as a string) and requires an enumerated idiom: for asciiString a pure-ASCII constant, an audited ASCII producer (strconv, ftoa, big.Int, time.Format with an ASCII layout, fmt.Sprintf of numbers), values derived from asciiStrings, byte buffers/builders all of whose writes are ASCII, control dependence on a no-wide-unit test or flag, the early-exit scan idiom, importedString.s after the scan found no wide unit; for unicodeString the unistring.Scan/AsUtf16 result, control dependence on wide-unit evidence (a >= 0x80 comparison, a non-nil UTF-16 source used whole, a flag raised only under such evidence), or building on a unicodeString receiver. Builders kept in struct fields are checked across methods (flag lowered wherever non-provable content is written). " +
+			"R-LAZYSCAN: an imported Go string never consults its lazily computed UTF-16 form, nor uses its raw UTF-8 bytes for anything encoding-sensitive (ordering, hashing, length, indexing), before the scan ran.",
+		Technique:  "who-may-construct over SSA births with constant evaluation, flag/evidence control dependence and builder write discipline; guard-freshness dataflow for the lazy scan",
+		DesignRef:  "DESIGN.md section 4, C06",
+		NotCovered: "surrogate handling and lone-surrogate preservation (trim/case mapping/normalize go through utf16.Decode), case mapping tables, that StrictEquals/hash/CompareTo are right given the normal form, equality of two unscanned imported strings with invalid UTF-8",
+	},
+	{
 		ID:    "C18",
 		Rules: []*core.Rule{rules.MapEncaps, rules.KeyNorm, rules.LazyScan, rules.NumBirth},
 		Explanation: "R-MAPENCAPS: every write of a field of mapEntry/orderedMap/orderedMapIter and every access of their link fields lies in methods of those types (the tombstone/linked-list invariants are then local to map.go); size is +1 only on the insertion edge of set, -1 only on the found edge of remove, 0 only in clear. " +
